@@ -103,7 +103,8 @@ func main() {
 	t0 = time.Now()
 	mux.Reset()
 	restoreGlobals()
-	for r := 0; r < nRounds; r++ {
+	r0, _ := strconv.Atoi(os.Getenv("C20_DEV_ROUND_FROM"))
+	for r := r0; r < r0+nRounds; r++ {
 		writeInflight(run, roundBase+r)
 		runRound(run, r)
 		restoreGlobals()
